@@ -260,6 +260,9 @@ class ExcFlow(object):
         self.safe = {}
         self.safe_divisors = {}      # fq -> [(regex over the divisor's source, why)]: one reason for every spelling of a division
         for (fq, text), why in (safe or {}).items():
+            if text.startswith('ANY '):
+                self.safe[(fq, text)] = why
+                continue
             if text.startswith('DIVISOR ~ '):
                 self.safe_divisors.setdefault(fq, []).append((text[len('DIVISOR ~ '):], why))
                 continue
@@ -454,7 +457,7 @@ class ExcFlow(object):
                 if pol and s in (txt(ast.parse('len(%s)==%d' % (v, n)).body[0].value), txt(ast.parse('%d==len(%s)' % (n, v)).body[0].value)):
                     return 'len guard'
                 # `a, b = words[:2]` after `if len(words) < 2: raise`  (fact: 2 <= len(words))
-                if base and pol and how.startswith('early-exit') and s in ('%d<=len%s' % (n, base), '%d<len%s' % (n - 1, base)):
+                if base and pol and how.startswith('early-exit') and s in (re.sub(r'[\s()]', '', '%d<=len%s' % (n, base)), re.sub(r'[\s()]', '', '%d<len%s' % (n - 1, base))):
                     return 'len guard'
             return None
         if cls == 'KeyError':
@@ -554,6 +557,10 @@ class ExcFlow(object):
                     sk = (f.fq, kt)
                     if sk in self.safe:
                         self.used_safe[sk] = self.safe[sk]
+                        continue
+                    anyk = (f.fq, 'ANY ' + cls)
+                    if anyk in self.safe:      # one reason for every site of this class in the function (any spelling)
+                        self.used_safe[anyk] = self.safe[anyk]
                         continue
                     if cls == 'ZeroDivisionError' and isinstance(node, ast.BinOp):
                         import re as _re
